@@ -184,6 +184,7 @@ def run_case(case):
                 services['b2'] = svc
                 backends['b2'] = Ops(fakes.make_b2(svc, by_id=case['b2_by_id']))
             model = {}
+            res_holder['known_names'] = set(case['names'])
             for i, op in enumerate(case['ops']):
                 kind = op['op']
                 data = payload_rng.randbytes(op['size']) if 'size' in op else None
@@ -318,6 +319,12 @@ def _start_reader(backend, name, old, new, holder):
                                                   'msg': f'while {name!r} was being overwritten a concurrent exists() returned False'}
                     return
                 got = backend.download(name)
+                listed = list(backend.list_files(''))
+                stray = [n for n in listed if n not in holder['known_names']]
+                if stray or listed.count(name) != 1:
+                    holder['reader_violation'] = {'cls': 'listing-shows-in-progress-upload', 'sig': {},
+                                                  'msg': f'while {name!r} was being overwritten a concurrent listing returned {stray[:3] or listed}'}
+                    return
             except FileNotFoundError:
                 holder['reader_violation'] = {'cls': 'replace-not-atomic', 'sig': {'seen': 'absent'},
                                               'msg': f'while {name!r} was being overwritten a concurrent reader found it absent'}
